@@ -32,7 +32,10 @@ def main():
     try:
         for P in props:
             for meta_path in sorted(glob.glob("/tmp/mut/%s-out/m*.json" % P)):
-                k = re.search(r"m(\d+)\.json", meta_path).group(1)
+                mm = re.search(r"/m(\d+)\.json$", meta_path)
+                if not mm:
+                    continue
+                k = mm.group(1)
                 mid = "%s-m%s" % (P, k)
                 dst = "/verif/seeded/%s" % mid
                 if os.path.exists(os.path.join(dst, "meta.json")) and json.load(open(os.path.join(dst, "meta.json"))).get("confirmed"):
